@@ -350,7 +350,7 @@ pub fn run_c04(tier: &str, seed: u64) -> Report {
         total.inconclusive.push("no RSA key fixtures found".into());
         return total;
     }
-    let nbase = if thorough { 60 } else { 12 };
+    let nbase = if thorough { 1500 } else { 24 };
     let mut items: Vec<(P, usize, Layer)> = Vec::new();
     for &p in &ALL {
         for b in 0..nbase {
@@ -461,7 +461,7 @@ pub fn replay_c04(case: &Value) -> Report {
     r
 }
 
-pub const RULE_C04: &str = "per protocol 12 (thorough 60) authentic tokens built at core/generic/batteries layer (footer none/text/empty, assertion none/text) are presented at the same layer under every single-bit neighbour of the key (all 256 bits of symmetric and Ed25519 public keys, all 392 bits of the compressed P-384 point, all bits of the RSA public-key DER), all-zero, all-one, 50 random, rotated/reversed/half-zeroed keys and every other pool key; oracle: any Ok is a violation (a key that fails to parse counts as 'fails'); distinct_nontrivial = distinct (protocol, layer, key class, rejection variant)";
+pub const RULE_C04: &str = "per protocol 24 (thorough 1500) authentic tokens built at core/generic/batteries layer (footer none/text/empty, assertion none/text) are presented at the same layer under every single-bit neighbour of the key (all 256 bits of symmetric and Ed25519 public keys, all 392 bits of the compressed P-384 point, all bits of the RSA public-key DER), all-zero, all-one, 50 random, rotated/reversed/half-zeroed keys and every other pool key; oracle: any Ok is a violation (a key that fails to parse counts as 'fails'); distinct_nontrivial = distinct (protocol, layer, key class, rejection variant)";
 
 // ==========================================================================================
 // C05
@@ -535,6 +535,20 @@ pub fn run_c05(tier: &str, seed: u64) -> Report {
     }
     let mut cat: Vec<Option<String>> = vec![None];
     cat.extend(gens::footer_catalogue().into_iter().map(Some));
+    {
+        // seeded random footers on top of the catalogue (quick: 20, thorough: 300), incl. single-character neighbours of each other
+        let mut rng = Rng::new(seed, "c05-cat", 0);
+        for k in 0..(if thorough { 300 } else { 20 }) {
+            let n = 1 + rng.below(if k % 10 == 0 { 400 } else { 40 });
+            let s = rng.utf8(n);
+            if k % 3 == 0 {
+                let mut t = s.clone();
+                t.push('x');
+                cat.push(Some(t));
+            }
+            cat.push(Some(s));
+        }
+    }
     let mut items: Vec<(P, Layer, usize)> = Vec::new();
     for &p in &ALL {
         for l in LAYERS {
@@ -671,7 +685,7 @@ pub fn replay_c05(case: &Value) -> Report {
     r
 }
 
-pub const RULE_C05: &str = "8 protocols x 3 layers x footer catalogue (none, empty, 40 strings incl. prefix/extension pairs, case and whitespace variants, NUL suffix, NFC/NFD, strings whose base64 differs in the last character, strings that are themselves base64 or contain dots): a token is built with each footer F through that layer's builder and presented to that layer's parser with every expected footer F' of the catalogue; oracle: accept iff F' == F with none == empty (string equality in the harness). Plus the footer segment of every produced token compared with the harness's own base64url encoder, and edits of the segment (removed, emptied, replaced with and without matching expectation, extended, truncated, raw text, added to a footer-less token). distinct_nontrivial = distinct (protocol, layer, built class, supplied class) for accepted pairs and (protocol, layer, case class, rejection variant) for rejected ones";
+pub const RULE_C05: &str = "8 protocols x 3 layers x footer catalogue (none, empty, 40 strings + 20 (thorough 300) seeded random ones; incl. prefix/extension pairs, case and whitespace variants, NUL suffix, NFC/NFD, strings whose base64 differs in the last character, strings that are themselves base64 or contain dots): a token is built with each footer F through that layer's builder and presented to that layer's parser with every expected footer F' of the catalogue; oracle: accept iff F' == F with none == empty (string equality in the harness). Plus the footer segment of every produced token compared with the harness's own base64url encoder, and edits of the segment (removed, emptied, replaced with and without matching expectation, extended, truncated, raw text, added to a footer-less token). distinct_nontrivial = distinct (protocol, layer, built class, supplied class) for accepted pairs and (protocol, layer, case class, rejection variant) for rejected ones";
 
 // ==========================================================================================
 // C06
@@ -736,6 +750,13 @@ pub fn run_c06(tier: &str, seed: u64) -> Report {
     let protos = [P::V3L, P::V4L, P::V3P, P::V4P];
     let mut cat: Vec<Option<String>> = vec![None];
     cat.extend(gens::footer_catalogue().into_iter().map(Some));
+    {
+        let mut rng = Rng::new(seed, "c06-cat", 0);
+        for k in 0..(if thorough { 150 } else { 10 }) {
+            let n = 1 + rng.below(if k % 10 == 0 { 400 } else { 40 });
+            cat.push(Some(rng.utf8(n)));
+        }
+    }
     let mut items: Vec<(P, Layer, usize)> = Vec::new();
     for &p in &protos {
         for l in LAYERS {
@@ -777,7 +798,7 @@ pub fn run_c06(tier: &str, seed: u64) -> Report {
     // -------- not stored: length independence, absence of the bytes, identical nonce||ciphertext (core layer, fixed nonce)
     let mut rng = Rng::new(seed, "c06-store", 0);
     let mut r = Report::new();
-    let ncheck = if thorough { 400 } else { 60 };
+    let ncheck = if thorough { 5000 } else { 60 };
     for &p in &protos {
         let key = pools.key(p, 0);
         for k in 0..ncheck {
@@ -951,7 +972,7 @@ pub fn run_c07(tier: &str, seed: u64) -> Report {
         total.inconclusive.push("no RSA key fixtures found".into());
         return total;
     }
-    let ntok = if thorough { 150 } else { 30 };
+    let ntok = if thorough { 3000 } else { 90 };
     let mut items: Vec<(P, P)> = Vec::new();
     for &x in &ALL {
         for &y in &ALL {
@@ -1065,4 +1086,4 @@ pub fn replay_c07(case: &Value) -> Report {
     r
 }
 
-pub const RULE_C07: &str = "all 56 ordered pairs (X,Y) of the 8 protocols (exhaustive) x 30 (thorough 150) authentic X tokens (footer none/text, assertion none/text; JSON messages and messages of 0,1,16,24,32,40,48,64,80,96 bytes so that foreign bodies line up with Y's nonce/tag/signature layout), each first opened by its own protocol, x {verbatim, header text rewritten to Y's} x {core, generic, batteries} entry points of Y, with key material shared wherever the types allow (same 32 bytes for v1-v4 local, same Ed25519 pair for v2/v4 public, symmetric key bytes reused as Ed25519 public key and as P-384 x-coordinate, public key bytes reused as symmetric key) and Y's own pool key otherwise; oracle: any Ok is a violation. distinct_nontrivial = distinct (X, Y, layer, verbatim|relabelled + key class, rejection variant)";
+pub const RULE_C07: &str = "all 56 ordered pairs (X,Y) of the 8 protocols (exhaustive) x 90 (thorough 3000) authentic X tokens (footer none/text, assertion none/text; JSON messages and messages of 0,1,16,24,32,40,48,64,80,96 bytes so that foreign bodies line up with Y's nonce/tag/signature layout), each first opened by its own protocol, x {verbatim, header text rewritten to Y's} x {core, generic, batteries} entry points of Y, with key material shared wherever the types allow (same 32 bytes for v1-v4 local, same Ed25519 pair for v2/v4 public, symmetric key bytes reused as Ed25519 public key and as P-384 x-coordinate, public key bytes reused as symmetric key) and Y's own pool key otherwise; oracle: any Ok is a violation. distinct_nontrivial = distinct (X, Y, layer, verbatim|relabelled + key class, rejection variant)";
